@@ -198,10 +198,11 @@ def pending_call_blocks_sequence(ctx, F):
     returning its error.  A state that restores a result (`executed`) must not."""
     h = F.fn("prev_result_handler::handle_prev_state")
     rows = {}
+    inc_bbs = {c.bb for c, _ in lib.forwarding_calls(F, h, "ExecutionCtx::make_subgraph_incomplete")}     # directly or through a thin helper
     for st in lib.enumerate_paths(h, max_paths=60000):
         ctors = tuple(c.path.split("::")[-1] for c in st.calls if "StateDescriptor::" in c.path)
         res = lib.path_result(h, st)
-        inc = bool(lib.path_calls(st, "ExecutionCtx::make_subgraph_incomplete"))
+        inc = any(c.bb in inc_bbs for c in st.calls)
         if res == "Ok" and ctors:
             rows.setdefault(ctors[-1], set()).add(inc)
         elif res == "Err" and lib.path_calls(st, "record_call_cid") and not any(lib.is_from_residual(c.path) for c in st.calls[-2:]):
